@@ -25,7 +25,8 @@ import traceback
 VERIF = os.path.dirname(os.path.dirname(os.path.abspath(__file__)))
 LEAN = os.path.join(VERIF, "lean")
 REPO = os.environ.get("VERIF_REPO", "/repo")
-DRIVER = os.path.join(LEAN, ".lake", "build", "bin", "dnsdriver")
+def driver_path(prop: str) -> str:
+    return os.path.join(LEAN, ".lake", "build", "bin", f"driver{prop}")
 ALLOWED_AXIOMS = {"propext", "Classical.choice", "Quot.sound"}
 FORBIDDEN = re.compile(
     r"\b(sorry|admit|native_decide|bv_decide|implemented_by|unsafe)\b|^\s*axiom\s|maxHeartbeats\s+0\b",
@@ -201,8 +202,8 @@ def lean_build(prop: str, clean: bool = False, leanchecker: bool = False) -> Bui
             r.bad.append(("Generated.Consts", f"extraction failed: {e!r}"))
         r.theorems = write_audit(prop)
         env = dict(os.environ)
-        p = subprocess.run(["lake", "build", "dnsdriver"], cwd=LEAN, capture_output=True, text=True, env=env)
-        r.driver_ok = p.returncode == 0 and os.path.exists(DRIVER)
+        p = subprocess.run(["lake", "build", f"driver{prop}"], cwd=LEAN, capture_output=True, text=True, env=env)
+        r.driver_ok = p.returncode == 0 and os.path.exists(driver_path(prop))
         r.log += p.stdout[-4000:] + p.stderr[-2000:]
         if clean:
             # force re-elaboration of this property's proof modules
@@ -271,10 +272,10 @@ def lean_build(prop: str, clean: bool = False, leanchecker: bool = False) -> Bui
     return r
 
 
-def run_driver(lines):
-    """Run the compiled model driver over a batch of protocol lines."""
+def run_driver(prop, lines):
+    """Run the property's compiled model driver over a batch of protocol lines."""
     data = ("\n".join(lines) + "\n").encode()
-    p = subprocess.run([DRIVER], input=data, capture_output=True, timeout=1800)
+    p = subprocess.run([driver_path(prop)], input=data, capture_output=True, timeout=1800)
     if p.returncode != 0:
         raise RuntimeError(f"driver exit {p.returncode}: {p.stderr[-500:]!r}")
     out = p.stdout.decode().split("\n")
@@ -357,7 +358,7 @@ class Ctx:
         if not self.driver_ok:
             self.model_only_skipped += len(q)
             return
-        outs = run_driver([x[0] for x in q])
+        outs = run_driver(self.prop, [x[0] for x in q])
         for (op, impl, case), model in zip(q, outs):
             self.corr_count += 1
             if impl != model:
